@@ -324,6 +324,14 @@ def run_product(spec, result):
         # the benign twin must load: "everything is rejected" cannot pass.  For every fourth case it is loaded first, from the
         # very file that is then overwritten in place (same modification time) with the hostile document
         in_place = i % 4 == 0
+        if i % 9 == 2:
+            # the same two documents at the size of a real site configuration (100 kB of comments at the end, for
+            # multi-document streams in front): how a file is read must not depend on how big it is
+            pad = "".join("# site note %04d %s\n" % (k, "x" * 80) for k in range(1100))
+            grow = (lambda text: text + pad) if case["position"] not in MULTI_DOC and not case["text"].startswith(("%TAG", "---")) else (lambda text: text)
+            if grow(twin) != twin:
+                twin, case = grow(twin), dict(case, text=grow(case["text"]))
+                result.count("hostile_documents_of_100_kB")
         path = None
         vplug.reset()
         try:
@@ -433,7 +441,7 @@ def run_shard(spec):
 
 
 def finish(total, tier):
-    need = ["hostile_documents", "benign_twins_loaded", "canary_selftests_fired", "hostile_documents_replacing_a_loaded_file_in_place", "hostile_documents_in_yml_files"] + ["position_" + p for p in POSITIONS]
+    need = ["hostile_documents", "hostile_documents_of_100_kB", "benign_twins_loaded", "canary_selftests_fired", "hostile_documents_replacing_a_loaded_file_in_place", "hostile_documents_in_yml_files"] + ["position_" + p for p in POSITIONS]
     need += ["kind_" + k for k in ("apply-list", "object", "new", "name", "module", "typed", "untagged-list", "yamlorg-widget-map", "foreign-verbatim-map", "foreign-handle-map", "bare-verbatim-python")]
     for name in need:
         if not total.counters.get(name) and not total.violations:
